@@ -569,7 +569,7 @@ func checkC04() int {
 	c.Rule = "G1 programs with a unique label per print site, run in async/sync/np under seeded configurations; oracle R2 (independent SAX semantics): the stdout multiset must be the unique reference multiset (contraction-free) or a member of the admitted set (bounded search over copy timings; beyond the bound: per-label lower bound and equal support), and the stdout order must be a sequence the reference can produce (guided replay); non-trivial = distinct program that printed >= 2 labels from >= 2 processes"
 	c.Assumptions = []string{"stdout order is the order of write(2) calls on one pipe, which respects happens-before", "R2 and the generator are the trusted base; R2's lazy run reproduces Grits on contraction-free programs"}
 	outs := runMatrix(c, pool, cases, nCfg, modesAll)
-	exact, interval, seqDecided, seqBounded := 0, 0, 0, 0
+	exact, interval, seqDecided, seqBounded, lazyDecided := 0, 0, 0, 0, 0
 	for _, r := range outs {
 		c.Evaluations++
 		o := r.o
@@ -588,8 +588,16 @@ func checkC04() int {
 		got := sem.MS(run.Stdout)
 		// The guided replay decides multiset and order at once: if the observed sequence can be
 		// produced, its multiset is an admitted one.
-		s := &sem.Search{MaxState: c.pick(6000, 30000), MaxSteps: 400000}
-		adm, decided := sem.New(pc.P).Admits(run.Stdout, s)
+		// first the cheap search (lazy copy discipline: what the polarized interpreters do); only
+		// if that finds no run, the search over all copy / split / drop timings
+		adm, decided := false, false
+		if got == pc.LazyMS && sem.New(pc.P).AdmitsLazy(run.Stdout, &sem.Search{MaxState: 4000, MaxSteps: 400000}) {
+			adm, decided = true, true
+			lazyDecided++
+		} else {
+			s := &sem.Search{MaxState: c.pick(3000, 8000), MaxSteps: 400000}
+			adm, decided = sem.New(pc.P).Admits(run.Stdout, s)
+		}
 		w := witnessOf(r)
 		w["reference_multiset_lazy"] = pc.LazyMS
 		w["observed_multiset"] = got
@@ -631,6 +639,7 @@ func checkC04() int {
 	c.Extra["programs"] = len(cases)
 	c.Extra["runs_decided_exactly_by_guided_replay"] = exact
 	c.Extra["runs_where_the_search_bound_was_hit(multiset_by_interval,order_undecided)"] = interval
+	c.Extra["runs_decided_by_the_lazy_replay_alone"] = lazyDecided
 	c.Extra["order_decided"] = seqDecided
 	c.Extra["order_search_bound_hit"] = seqBounded
 	c.Extra["generator_features"] = featKeys(cases)
